@@ -29,7 +29,7 @@ seeds = sorted(p for p in (HERE / "seeded").iterdir() if (p / "patch.diff").exis
 only = sys.argv[1:]
 if only:
     seeds = [s for s in seeds if s.name in only]
-with ThreadPoolExecutor(4) as ex:
+with ThreadPoolExecutor(int(os.environ.get("MX_JOBS", "4"))) as ex:
     res = dict(ex.map(run_seed, seeds))
 lines = ["| seeded change | property | what | reported by its own property's check | also reported by |", "|---|---|---|---|---|"]
 missed = []
